@@ -15,7 +15,7 @@ func init() {
 		Technique:   "guarded-sink reachability on the SSA CFG of ctlcmd.Run and isAllowedToRun + constant-table check of nonRootAllowed + who-may-use of the command registry",
 		Explanation: "Structural necessary conditions for 'non-root callers can only run read-only snapctl commands': (R1) in ctlcmd.Run the go-flags ParseArgs call (the only place commands execute) is cut from the entry by isAllowedToRun(uid,args)==true on the caller's own uid and argument vector; (R2) every `return true` of isAllowedToRun is cut by uid==0, or (idx==0 and membership in nonRootAllowed), or arg being -h/--help, and nothing returns true after the `--` terminator; (R3) nonRootAllowed is a constant table within the six names of the property and is only ever read as the haystack of ListContains; (R4) command generators are invoked only in Run and the registry is written only by addCommand.",
 		NotDecided:  "how the go-flags parser interprets the same argument vector (scan/parse mismatch is a runtime question); what each allowed command does.",
-		Run:         runC25,
+		Run:         func(c *Ctx) { runC25(c); runC25x(c) },
 	})
 }
 
